@@ -37,7 +37,7 @@ class Ctx:
         self.t0 = time.time()
         self.out = os.path.join(VERIF, "out", prop)
         os.makedirs(self.out, exist_ok=True)
-        for fn in os.listdir(self.out):  # replays of earlier runs are not evidence of this one
+        for fn in ([] if replay else os.listdir(self.out)):  # replays of earlier runs are not evidence of this one
             try:
                 os.remove(os.path.join(self.out, fn))
             except OSError:
